@@ -250,6 +250,8 @@ def run(P, rep, tier):
         analyse(f, set())
     rep.floor('C05.GEOM', 12)
 
+    run_scratch(P, rep, C)
+
 
 _lc = {}
 
@@ -280,3 +282,124 @@ def is_loop_cond(f, bid):
         if kind in ('for', 'while', 'do') and cond is not None and not isinstance(cond[0], list) and pstr(strip(cond)) == cs:
             return True
     return False
+
+
+# ---------------- SCRATCH: the processes of one stage are interchangeable only if the per-thread context carries nothing from one work
+# item to the next.  Where a kernel zero-fills an array of its context at the start of a work item and reads it later in the same
+# function, the zero-fill must cover every element the reads can touch: per subscript position, either the fill runs over the
+# declared extent (constant bound >= dimension) or its bound is the read's bound.  A fill demonstrably narrower than a read of the
+# same function (`i < X` against `i <= X`, or a guard the read does not have on the same bound expression) leaves elements
+# holding whatever the previous work item of *that thread* left there: the result then depends on which thread got which item.
+# Only the demonstrably narrower case is reported; bounds that cannot be compared are listed as information.
+def _idx_chain(t):
+    idx = []
+    t = strip(t)
+    while t is not None and t[0] == 'i':
+        idx.append(strip(t[2]))
+        t = strip(t[1])
+    if t is not None and t[0] == 'm':
+        return t, list(reversed(idx))
+    return None, None
+
+
+def _conj(c):
+    c = strip(c)
+    if c is not None and c[0] == 'b' and c[1] == '&&':
+        return _conj(c[2]) + _conj(c[3])
+    return [c]
+
+
+def _upper(f, ev, var):
+    """upper bounds on local `var` at ev from enclosing loops and guards: [(strict?, bound expr string, is guard)]"""
+    out = []
+    for kind, cond, line in f.ctl_chain(ev):
+        if cond is None or kind not in ('for', 'while', 'if'):
+            continue
+        for c in _conj(cond):
+            if c is None or c[0] != 'b' or c[1] not in ('<', '<='):
+                continue
+            l, r = strip(c[2]), strip(c[3])
+            if l is not None and l[0] == 'v' and l[1] == var:
+                out.append((c[1] == '<', pstr(r), kind == 'if', r))
+    return out
+
+
+def run_scratch(P, rep, C):
+    ninst = 0
+    for f in P.fns:
+        if f.lib != 'Encoder' or f.nocfg or f not in C.runtime:
+            continue
+        fills = {}
+        for ev in f.events(('st', 'call')):
+            e = ev['e']
+            tgt = None
+            if ev['k'] == 'st' and e[0] == 'a' and e[1] == '=':
+                r = strip(e[3])
+                if r is not None and r[0] == 'l' and r[1] == 0:
+                    tgt = e[2]
+            elif ev['k'] == 'call' and callee_name(e) == 'memset' and len(e[2]) >= 2:
+                v = strip(e[2][1])
+                if v is not None and v[0] == 'l' and v[1] == 0:
+                    tgt = e[2][0]
+            if tgt is None:
+                continue
+            m, idx = _idx_chain(tgt)
+            if m is None or not idx or not m[1].split('.')[0].endswith('Context'):
+                continue
+            if not all(i is not None and i[0] == 'v' and i[2] == 'l' for i in idx):
+                continue
+            if not any(k == 'for' for k, c, l in f.ctl_chain(ev)):
+                continue
+            fills.setdefault(m[1], []).append((ev, idx))
+        for fld, fl in fills.items():
+            dims = None
+            rec = P.record(fld.split('.')[0])
+            for fd in (rec or {}).get('fields', ()):
+                if fd['n'] == fld.split('.')[1]:
+                    import re as _re
+                    dims = [int(x) for x in _re.findall(r'\[(\d+)\]', fd.get('t', ''))]
+            reads = []
+            fill_evs = {id(ev) for ev, idx in fl}
+            for ev in f.events(('st', 'decl', 'call', 'ret')):
+                e = ev.get('e')
+                if e is None or id(ev) in fill_evs:
+                    continue
+                srcs = [e] if ev['k'] != 'st' or e[0] not in ('a',) else [e[3]] + [strip(e[2])[2]] if strip(e[2])[0] == 'i' else [e[3]]
+                for src in srcs:
+                    if src is None:
+                        continue
+                    for x in subexprs(src):
+                        if x[0] == 'i':
+                            m, idx = _idx_chain(x)
+                            if m is not None and m[1] == fld and idx and len(idx) >= len(fl[0][1]):
+                                reads.append((ev, idx))
+            if not reads:
+                continue
+            for fev, fidx in fl:
+                ninst += 1
+                probs, notes = [], []
+                for d, iv in enumerate(fidx):
+                    fb = _upper(f, fev, iv[1])
+                    full = [b for b in fb if b[3] is not None and b[3][0] == 'l' and dims and d < len(dims) and (b[3][1] + (0 if b[0] else 1)) >= dims[d]]
+                    narrow = [b for b in fb if b not in full]
+                    if not narrow:
+                        continue
+                    for rev, ridx in reads:
+                        if d >= len(ridx):
+                            continue
+                        rv = ridx[d]
+                        if rv is None or rv[0] != 'v':
+                            continue
+                        rb = _upper(f, rev, rv[1])
+                        for strict, bs, guard, _b in narrow:
+                            same = [b for b in rb if b[1] == bs]
+                            if same and all((not b[0]) for b in same) and strict:
+                                probs.append('subscript %d is filled for %s < %s but read for %s <= %s (line %d)' % (d, iv[1], bs, rv[1], bs, rev.get('l', 0)))
+                            elif not same:
+                                notes.append('subscript %d: fill bound %s not comparable with the read at line %d' % (d, bs, rev.get('l', 0)))
+                probs = sorted(set(probs))
+                rep.ob('C05.SCRATCH', '%s/%s@%s' % (f.name, fld, fev.get('l')), not probs, f.loc(fev),
+                       ('zero-fill of %s covers every element the %d reads of %s can touch%s' % (fld.split('.')[1], len(reads), f.name, ('; ' + notes[0]) if notes else '')) if not probs else
+                       ('the zero-fill of the per-thread scratch array %s is narrower than a read in the same function: %s; the elements left out keep what the previous work item of the same thread wrote, so the result depends on the distribution of work over threads' % (fld.split('.')[1], '; '.join(probs[:3]))))
+    rep.analysed['scratch_fills'] = ninst
+    rep.floor('C05.SCRATCH', 1)
